@@ -218,6 +218,30 @@ func c08Run(c *Ctx) {
 			judge(&Case{Gen: "param-limit-multiline", Src: K["fun"] + " f(" + strings.Join(ps, ",\n") + "\n) {\n" + Print("1") + "\n}\n", X: map[string]string{"params": fmt.Sprint(np)}})
 		}
 	}
+	// 5b. what surrounds the program text in the file: leading / trailing blank lines and blanks, and
+	// characters that merely look like blanks at the very start or end (through the binary: line numbers
+	// count from the first byte of the file, and a stray character is stray wherever it stands)
+	bodies := []string{Print("1") + "\n" + Print("2"), Print("1") + "\n" + Print("2 +") + "\n" + Print("3"), Print("1") + "\n\n" + Print("(2") + ";", Print("1") + "\n" + "@" + "\n" + Print("3"), Var("x", "1") + "\n" + "x = ;", "{ " + Print("1"), Print("1")[:len(Print("1"))-1]}
+	for _, lead := range []string{"", "\n", "\n\n", "\r\n\r\n\r\n", "\n \n\t\n", strings.Repeat("\n", 7), "  ", "\t"} {
+		for _, trail := range []string{"", "\n", "\n\n\n", "  ", "\t\n ", "\r\n"} {
+			for _, b := range bodies {
+				if c.Mine() {
+					judge(&Case{Gen: "file-edges-cli", Mode: "cli", Src: lead + b + trail})
+				}
+			}
+		}
+	}
+	for _, ch := range []string{"\u00a0", "\u0085", "\u2028", "\u2029", "\v", "\f", "\u3000", "\ufeff", "\u200b", "\u1680", "\u2003", "\u202f", "\x1c", "\x00"} {
+		for _, shape := range []string{"%c%p", "%p%c", "%c\n%p", "%p\n%c", "%p\n%c\n", " %c%p", "%p%c ", "%c%p%c", "\n\n%c\n%p"} {
+			src := strings.ReplaceAll(strings.ReplaceAll(shape, "%c", ch), "%p", Print(`"ran"`)+"\n"+Print("2"))
+			if c.Mine() {
+				judge(&Case{Gen: "file-edges-cli", Mode: "cli", Src: src})
+			}
+			if c.Mine() {
+				judge(&Case{Gen: "file-edges", Src: src})
+			}
+		}
+	}
 	// 5. nothing runs: printing prefix + one error on the last line (also through the binary)
 	errs := []string{"@", `"unterminated`, "/* open", Print("1") + " )", Print("1 +"), K["var"] + " ;", "1 = 2;", "}", Print("(1"), K["if"] + " x", K["fun"] + " (", "a b", Var(B["len"], "1"), "1" + strings.Repeat("0", 400) + ";"}
 	for _, e := range errs {
@@ -363,6 +387,18 @@ func c08CLI(c *Ctx, cs *Case) {
 			c.Violate(Violation{Why: "rejected text: expected exit 65, empty stdout and a diagnostic", Observed: describeObs(o), Signature: "cli-reject"})
 			return
 		}
+		diags := ParseDiags(o.Stderr)
+		for _, d := range diags {
+			if d.Line < 1 || d.Line > v.Lines {
+				c.Violate(Violation{Why: fmt.Sprintf("diagnostic names line %d, the text has %d line(s)", d.Line, v.Lines), Observed: describeObs(o), Signature: "cli-diag-line-outside"})
+				return
+			}
+		}
+		if len(v.LexErrs) == 0 && !containsInt(v.OKLines, diags[0].Line) {
+			t := v.Toks[v.FailTok]
+			c.Violate(Violation{Why: fmt.Sprintf("first diagnostic names line %d; the text stops being a valid beginning at token #%d %s %q on line %v", diags[0].Line, v.FailTok, t.Kind, t.Lexeme, v.OKLines), Observed: describeObs(o), Signature: "cli-syntax-diag-line"})
+			return
+		}
 		c.Count("cli_rejected_clean", 1)
 	} else if o.Exit == 65 {
 		c.Violate(Violation{Why: "valid text rejected by the CLI", Observed: describeObs(o), Signature: "cli-false-reject"})
@@ -374,12 +410,12 @@ func c08CLI(c *Ctx, cs *Case) {
 func init() {
 	register(&CheckDef{
 		ID:   "C08",
-		Rule: "texts: every token sequence of length <=3 (quick) / <=4 (thorough) over a 40-token alphabet (one representative per operator level, literal kind, bracket, separator, keyword, a built-in name) and <=5/<=6 over a 14-token core alphabet, rendered one token per line; every string of <=3/<=4 lexical fragments; every prefix of every corpus program (shipped examples + hand-written programs) alone and extended by every alphabet token; every declaration / statement form in every single-statement slot (if arms, else-if chains, loop bodies; at top level, in a function, block and loop); reserved names in every declaring and non-declaring position; 0..300 parameters; printing prefixes followed by one error (in-process and through the binary); random fragment soup and token-mutated programs; nests 2000/10000 deep, complete and truncated; raw invalid-UTF-8/NUL/BOM inputs through the binary. Oracle: spec lexer + Earley recogniser over the published grammar (membership and first non-viable token) + side conditions; monitors: panic/step-budget (totality), evaluation-step counter and stdout (nothing runs), diagnostic lines. Non-trivial = distinct text that was decided (not out of domain).",
+		Rule: "texts: every token sequence of length <=3 (quick) / <=4 (thorough) over a 40-token alphabet (one representative per operator level, literal kind, bracket, separator, keyword, a built-in name) and <=5/<=6 over a 14-token core alphabet, rendered one token per line; every string of <=3/<=4 lexical fragments; every prefix of every corpus program (shipped examples + hand-written programs) alone and extended by every alphabet token; every declaration / statement form in every single-statement slot (if arms, else-if chains, loop bodies; at top level, in a function, block and loop); reserved names in every declaring and non-declaring position; 0..300 parameters; printing prefixes followed by one error (in-process and through the binary); random fragment soup and token-mutated programs; nests 2000/10000 deep, complete and truncated; raw invalid-UTF-8/NUL/BOM inputs through the binary; programs surrounded by blank lines / blanks and by characters that only look like blanks at the very start or end of the file, through the binary with the diagnostic's line checked. Oracle: spec lexer + Earley recogniser over the published grammar (membership and first non-viable token) + side conditions; monitors: panic/step-budget (totality), evaluation-step counter and stdout (nothing runs), diagnostic lines. Non-trivial = distinct text that was decided (not out of domain).",
 		Assumptions: []string{"the grammar-as-data in harness/ref/earley.go transcribes grammer.txt with the amendments C08 states", "texts with a ধরি declaration spanning a line break, a trailing comma in an object literal as only departure, or the identifier `input` are out of domain (skipped, counted)"},
 		Run:         c08Run,
 		Judge:       c08Judge,
 		MustCount: func(c *Ctx) []string {
-			return []string{"accepted", "rejected_syntax", "rejected_lexical", "rejected_assign_target", "gen:nothing-runs", "gen:deep-nest", "gen:param-limit", "gen:reserved-names", "gen:assignment-targets", "gen:literal-forms", "gen:code-point-classes", "gen:statement-positions", "cli_rejected_clean", "gen:prefix-extension"}
+			return []string{"accepted", "rejected_syntax", "rejected_lexical", "rejected_assign_target", "gen:nothing-runs", "gen:deep-nest", "gen:param-limit", "gen:reserved-names", "gen:assignment-targets", "gen:literal-forms", "gen:code-point-classes", "gen:statement-positions", "gen:file-edges-cli", "cli_rejected_clean", "gen:prefix-extension"}
 		},
 	})
 }
